@@ -430,3 +430,12 @@ var importAliases = map[string]string{
 	"sdkmath":   "cosmossdk.io/math",
 	"tmbytes":   "github.com/cometbft/cometbft/libs/bytes",
 }
+
+func (p *Program) isRepoPkg(path string) bool {
+	for pk := range p.repoPkgs {
+		if pk.Pkg != nil && pk.Pkg.Path() == path {
+			return true
+		}
+	}
+	return strings.HasPrefix(path, "mods.irisnet.org/")
+}
